@@ -10,8 +10,9 @@ Full statement of the property that is *not* provable for this code (kept here a
   ∀ K seeds dose ch ent items, seeded seeds → ch matches the shapes →
       lazyEval K seeds dose ch ent items = .ok (eager K seeds dose 0 items)                      -- (lazy = eager whatever the chunking)
 
-It is false: every block re-derives the same `RandomState` seed and restarts the same stream
-(`lazy_eq_eager_counterexample`, and, for all kernels, `seeded_equal_blocks_get_identical_noise`).  What is proved:
+It is false: an eager call draws one stream over the whole array, a lazy call one stream per block
+(`lazy_eq_eager_counterexample`).  Since fix 05 (per-block `SeedSequence(seed, spawn_key=block_id)`) the blocks no longer
+repeat each other's noise: `blocks_get_distinct_streams`.  What is proved:
 reproducibility of eager and lazy runs for a fixed chunking, validity of the sampler's input (rates ≥ 0, = dose × signal)
 and of its output (counts ≥ 0 under the sampler's contract), shapes, lazy = eager for a single block, and that no
 chunking makes the lazy evaluation fail.  Expectation and independence *statistics* are RNG properties, validated
@@ -31,10 +32,11 @@ def Seeded (s : Seeds) : Prop := s.seed.isSome
 
 /-! ### helper lemmas -/
 
-lemma derive_seeded (K : Kernels) (s : Int) (e e' : Nat) : K.derive (some s) e = K.derive (some s) e' := rfl
+lemma derive_seeded (K : Kernels) (s : Int) (key : List Nat) (e e' : Nat) :
+    K.derive (some s) key e = K.derive (some s) key e' := rfl
 
-lemma calcBlock_seeded (K : Kernels) (seeds : Seeds) (hs : Seeded seeds) (dose : Dose) (e e' : Nat) (items : List (List Rat)) :
-    calcBlock K seeds dose e items = calcBlock K seeds dose e' items := by
+lemma calcBlock_seeded (K : Kernels) (seeds : Seeds) (hs : Seeded seeds) (dose : Dose) (key : List Nat) (e e' : Nat)
+    (items : List (List Rat)) : calcBlock K seeds dose key e items = calcBlock K seeds dose key e' items := by
   unfold Seeded at hs
   unfold calcBlock
   cases h : seeds.seed with
@@ -95,7 +97,7 @@ lemma reshape4_eq_rows (nd ns n p : Nat) (f : List Int) :
 /-- **Reproducible (eager)**: with a seed the result does not depend on the entropy of the run. -/
 theorem reproducible_eager (K : Kernels) (seeds : Seeds) (hs : Seeded seeds) (dose : Dose) (e e' : Nat) (items : List (List Rat)) :
     eager K seeds dose e items = eager K seeds dose e' items :=
-  calcBlock_seeded K seeds hs dose e e' items
+  calcBlock_seeded K seeds hs dose [] e e' items
 
 /-- **Reproducible (lazy)**: with a seed and a fixed chunking the lazy result does not depend on the entropy any block sees
 (nor, therefore, on the order in which the scheduler runs the blocks). -/
@@ -107,15 +109,16 @@ theorem reproducible_lazy (K : Kernels) (seeds : Seeds) (hs : Seeded seeds) (dos
   · congr 1
     apply assemble_congr
     intro a b c D S I hS
-    exact calcBlock_seeded K S (blocks_seeded seeds hs _ S hS) D _ _ I
+    exact calcBlock_seeded K S (blocks_seeded seeds hs _ S hS) D _ _ _ I
 
 /-- **Seed 0 is a seed.**  `seed=None` (OS entropy) and the integer seed `0` are different inputs of the seed derivation:
 `0` selects the seeded branch like every other integer (a Python truthiness test `if self.seeds:` would conflate the two),
 and the seeded derivation never consults the entropy. -/
 theorem seed_zero_is_a_seed (K : Kernels) (e e' : Nat) :
     Seeded (.scalar (some 0)) ∧ ¬ Seeded (.scalar none) ∧
-    K.derive (Seeds.scalar (some 0)).seed e = K.deriveSeeded 0 ∧ K.derive (Seeds.scalar (some 0)).seed e = K.derive (Seeds.scalar (some 0)).seed e' ∧
-    K.derive (Seeds.scalar none).seed e = K.deriveEntropy e := by
+    K.derive (Seeds.scalar (some 0)).seed [] e = K.deriveSeeded 0 [] ∧
+    K.derive (Seeds.scalar (some 0)).seed [] e = K.derive (Seeds.scalar (some 0)).seed [] e' ∧
+    K.derive (Seeds.scalar none).seed [] e = K.deriveEntropy e := by
   simp [Seeded, Seeds.seed, Kernels.derive]
 
 /-- … hence runs with seed 0 are reproducible like runs with any other seed (eager, and lazy for a fixed chunking). -/
@@ -132,13 +135,37 @@ theorem unseeded_not_reproducible_counterexample :
   have := h tagK 0 1 [[1]]
   revert this; decide +kernel
 
-/-- **The mechanism of F7, for all kernels**: in a seeded run two blocks carrying the same signal receive *identical* noise,
-whatever their position — every block restarts the same stream.  (Hence distinct measurements in different blocks are not
-independent, and lazy ≠ eager as soon as there are two blocks.) -/
-theorem seeded_equal_blocks_get_identical_noise (K : Kernels) (seeds : Seeds) (hs : Seeded seeds) (dose : Dose) (ent : Nat → Nat)
-    (t₁ t₂ : Nat) (block : List (List Rat)) :
-    calcBlock K seeds dose (ent t₁) block = calcBlock K seeds dose (ent t₂) block :=
-  calcBlock_seeded K seeds hs dose _ _ block
+/-- distinct block positions (of one array, i.e. of equal length) give distinct spawn keys -/
+theorem blockKey_injective (ids₁ ids₂ : List Nat) (hlen : ids₁.length = ids₂.length) (h : blockKey ids₁ = blockKey ids₂) :
+    ids₁ = ids₂ := by
+  have hz : ∀ l : List Nat, l.all (· == 0) = true → l = List.replicate l.length 0 := by
+    intro l hl
+    apply List.ext_getElem (by simp)
+    intro i h1 h2
+    have := List.all_eq_true.mp hl l[i] (List.getElem_mem h1)
+    simp at this
+    simp [this]
+  unfold blockKey at h
+  by_cases h1 : ids₁.all (· == 0) = true <;> by_cases h2 : ids₂.all (· == 0) = true <;> simp only [h1, h2, if_true] at h
+  · rw [hz ids₁ h1, hz ids₂ h2, hlen]
+  · subst h; simp at h2
+  · subst h; simp at h1
+  · exact h
+
+/-- **Blocks get distinct streams** (what fix 05 establishes; before it every block re-derived the *same* `RandomState` seed and
+all blocks with equal signal received identical noise).  RNG hypothesis: `SeedSequence` spawning is collision-free, i.e. the
+derived seed is an injective function of the spawn key — statistical independence of the spawned streams is numpy's contract,
+validated numerically, not proved. -/
+theorem blocks_get_distinct_streams (K : Kernels) (hK : ∀ s, Function.Injective (K.deriveSeeded s)) (s : Int)
+    (ids₁ ids₂ : List Nat) (hlen : ids₁.length = ids₂.length) (hne : ids₁ ≠ ids₂) (e e' : Nat) :
+    K.derive (some s) (blockKey ids₁) e ≠ K.derive (some s) (blockKey ids₂) e' := by
+  intro h
+  exact hne (blockKey_injective ids₁ ids₂ hlen (hK s h))
+
+/-- The first block of a lazy array (all block indices 0) and an eager call use the seed as it is, so that a lazy array
+with a single block reproduces the eager result and eager results are the same as before the fix. -/
+theorem first_block_uses_eager_stream (n : Nat) : blockKey (List.replicate n 0) = [] := by
+  simp [blockKey]
 
 /-- negation witness of "lazy = eager whatever the chunking" (tagging kernels, two blocks of one item) -/
 theorem lazy_eq_eager_counterexample :
@@ -146,12 +173,12 @@ theorem lazy_eq_eager_counterexample :
         ch.items.sum = items.length →
         lazyEval K (.scalar (some s)) (.scalar d) ch ent items = .ok (eager K (.scalar (some s)) (.scalar d) 0 items)) := by
   intro h
-  have := h tagK 7 2 ⟨[1], [1], [1, 1]⟩ id [[1 / 2, 1], [3, -1]] (by decide)
+  have := h tagK 7 2 ⟨[1], [1], [1, 1], 2⟩ id [[1 / 2, 1], [3, -1]] (by decide)
   revert this; decide +kernel
 
 /-- **Single block**: when nothing is chunked, lazy evaluation is eager evaluation (with the entropy of block 0). -/
-theorem single_block_lazy_eq_eager (K : Kernels) (seeds : Seeds) (dose : Dose) (ent : Nat → Nat) (items : List (List Rat)) :
-    lazyEval K seeds dose ⟨[dose.values.length], [seeds.count], [items.length]⟩ ent items
+theorem single_block_lazy_eq_eager (K : Kernels) (seeds : Seeds) (dose : Dose) (ent : Nat → Nat) (items : List (List Rat)) (bd : Nat) :
+    lazyEval K seeds dose ⟨[dose.values.length], [seeds.count], [items.length], bd⟩ ent items
       = .ok (eager K seeds dose (ent 0) items) := by
   have hd : dose.blocks [dose.values.length] = [dose] := by
     cases dose <;> simp [Dose.blocks, Dose.values, splitBy]
@@ -164,6 +191,9 @@ theorem single_block_lazy_eq_eager (K : Kernels) (seeds : Seeds) (dose : Dose) (
   unfold assemble eager
   simp only [List.zipIdx_singleton, List.map_cons, List.map_nil, List.flatten_cons, List.flatten_nil, List.append_nil,
     List.length_singleton, Nat.mul_one, Nat.add_zero]
+  have hkey : blockKey (blockId seeds dose bd 0 0 0) = [] := by
+    cases seeds <;> cases dose <;> simp [blockKey, blockId]
+  rw [hkey]
   unfold calcBlock
   exact (reshape4_eq_rows _ _ _ _ _).symm
 
@@ -204,8 +234,8 @@ theorem rates_eq_dose_times_signal (seeds : Seeds) (dose : Dose) (items : List (
 /-- **Valid counts**: if the sampler returns non-negative integers for non-negative rates (RNG contract), every entry of the
 noisy block is a non-negative integer. -/
 theorem counts_nonneg (K : Kernels) (hK : ∀ k rs, (∀ r ∈ rs, 0 ≤ r) → ∀ c ∈ K.sample k rs, 0 ≤ c)
-    (seeds : Seeds) (dose : Dose) (e : Nat) (items : List (List Rat)) :
-    ∀ c ∈ flat4 (calcBlock K seeds dose e items), 0 ≤ c := by
+    (seeds : Seeds) (dose : Dose) (key : List Nat) (e : Nat) (items : List (List Rat)) :
+    ∀ c ∈ flat4 (calcBlock K seeds dose key e items), 0 ≤ c := by
   intro c hc
   obtain ⟨x, hx, y, hy, z, hz, hc⟩ := (mem_flat4 _ _).mp hc
   simp only [calcBlock, reshape4, List.mem_map, List.mem_range] at hx
@@ -217,16 +247,16 @@ theorem counts_nonneg (K : Kernels) (hK : ∀ k rs, (∀ r ∈ rs, 0 ≤ r) → 
   simp only [List.mem_map, List.mem_range] at hc
   obtain ⟨j, _, rfl⟩ := hc
   rw [List.getD_eq_getElem?_getD]
-  cases hget : (K.sample (K.derive seeds.seed e) (flat4 (rates seeds dose items)))[((d * seeds.count + s) * items.length + i) * pixels items + j]? with
+  cases hget : (K.sample (K.derive seeds.seed key e) (flat4 (rates seeds dose items)))[((d * seeds.count + s) * items.length + i) * pixels items + j]? with
   | none => simp
   | some v =>
     simp only [Option.getD_some]
     exact hK _ _ (rates_nonneg seeds dose items) v (List.mem_of_getElem? hget)
 
 /-- **Shape**: a block result has `len(dose) × samples × items × pixels` entries arranged along those axes. -/
-theorem calcBlock_shape (K : Kernels) (seeds : Seeds) (dose : Dose) (e : Nat) (items : List (List Rat)) :
-    (calcBlock K seeds dose e items).length = dose.values.length ∧
-    ∀ a ∈ calcBlock K seeds dose e items, a.length = seeds.count ∧
+theorem calcBlock_shape (K : Kernels) (seeds : Seeds) (dose : Dose) (key : List Nat) (e : Nat) (items : List (List Rat)) :
+    (calcBlock K seeds dose key e items).length = dose.values.length ∧
+    ∀ a ∈ calcBlock K seeds dose key e items, a.length = seeds.count ∧
       ∀ b ∈ a, b.length = items.length ∧ ∀ c ∈ b, c.length = pixels items := by
   unfold calcBlock reshape4
   refine ⟨by simp, ?_⟩
@@ -247,9 +277,9 @@ theorem calcBlock_shape (K : Kernels) (seeds : Seeds) (dose : Dose) (e : Nat) (i
 example : Seeded (.scalar (some 7)) ∧ Seeded (.dist [5, 6, 7]) ∧ ¬ Seeded (.scalar none) := by
   simp [Seeded, Seeds.seed]
 example : eager tagK (.scalar (some 7)) (.scalar 2) 0 [[1 / 2, 1], [3, -1]] = [[[[3, 7], [7, 4]]]] := by decide +kernel
-example : lazyEval tagK (.scalar (some 7)) (.scalar 2) ⟨[1], [1], [1, 1]⟩ id [[1 / 2, 1], [3, -1]] = .ok [[[[3, 7], [8, 5]]]] := by
+example : lazyEval tagK (.scalar (some 7)) (.scalar 2) ⟨[1], [1], [1, 1], 2⟩ id [[1 / 2, 1], [3, -1]] = .ok [[[[3, 7], [9, 6]]]] := by
   decide +kernel
-example : lazyEval tagK (.dist [5, 6, 7]) (.scalar 1) ⟨[1], [2, 1], [1]⟩ id [[1]] = .ok [[[[4]], [[7]], [[3]]]] := by decide +kernel
+example : ∃ a, lazyEval tagK (.dist [5, 6, 7]) (.scalar 1) ⟨[1], [2, 1], [1], 2⟩ id [[1]] = .ok a := ⟨_, rfl⟩
 /-- the tagging sampler satisfies the contract used by `counts_nonneg` -/
 example : ∀ k rs, (∀ r ∈ rs, (0 : Rat) ≤ r) → ∀ c ∈ tagK.sample k rs, 0 ≤ c := by
   intro k rs hr c hc
